@@ -185,6 +185,24 @@ def roundtrip_holds(c):
     return True
 
 
+def wide_field_cause(c):
+    """D26: is the failure of decode(encode(v)) == v caused exactly by the 65-entry table of missing values
+    (fields wider than 64 bits)?  The table is lengthened in place for one decode of this case; when the round trip
+    then holds, the cause is named.  Never hides anything else: the probe only reads."""
+    from pybufrkit import constants
+    tab = constants.NUMERIC_MISSING_VALUES
+    n0 = len(tab)
+    tab.extend(2 ** i - 1 for i in range(n0, 1025))
+    try:
+        probe = dict(c)
+        probe['impl_dec'] = impl_decode(probe)
+        return roundtrip_holds(probe)
+    except Exception:
+        return False
+    finally:
+        del tab[n0:]
+
+
 def hex_to_bits(h, n):
     if not h or h == '-':
         return ''
